@@ -620,7 +620,9 @@ def write_proof_replay(prop_id: str, rep: ProofReport, extra=None) -> str:
 
 
 def write_evidence(prop: Property, tier, seed, rep: ProofReport, runner: Optional[Runner], violations: int, known: list, wall: float, extra=None):
-    os.makedirs(os.path.join(VERIF, "evidence"), exist_ok=True)
+    # runs against a scratch tree (GLUE_REPO=<mutated worktree>) must not overwrite the committed evidence
+    ev_dir = os.path.join(VERIF, "evidence") if os.path.realpath(REPO) == "/repo" else os.path.join(VERIF, "evidence", "_scratch")
+    os.makedirs(ev_dir, exist_ok=True)
     cov = {
         "obligations": max(rep.obligations, 1),
         "discharged": rep.discharged,
@@ -667,7 +669,8 @@ def write_evidence(prop: Property, tier, seed, rep: ProofReport, runner: Optiona
         "wall_s": round(wall, 2),
         "violations": violations,
     }
-    with open(os.path.join(VERIF, "evidence", prop.id + ".json"), "w") as fh:
+    ev["tree_under_test"] = REPO
+    with open(os.path.join(ev_dir, prop.id + ".json"), "w") as fh:
         json.dump(ev, fh, indent=1, default=str)
 
 
